@@ -26,8 +26,8 @@ Non-trivial = non-empty suffix, or k >= 2; distinct by hash of the concatenated 
 
 fn parts(t: Tier) -> Vec<Part> {
     let (a, b, c) = match t {
-        Tier::Quick => (250_000, 150_000, 300_000),
-        Tier::Thorough => (4_000_000, 2_500_000, 5_000_000),
+        Tier::Quick => (750_000, 450_000, 900_000),
+        Tier::Thorough => (8_000_000, 5_000_000, 10_000_000),
     };
     vec![tape("suffix", a, 1500), tape("sequence", b, 2500), tape("records", c, 900)]
 }
